@@ -194,6 +194,10 @@ impl Ctx {
         *self.inner.lock().unwrap().counters.get(key).unwrap_or(&0)
     }
 
+    pub fn inner_max(&self, key: &str) -> u64 {
+        *self.inner.lock().unwrap().maxes.get(key).unwrap_or(&0)
+    }
+
     pub fn has_tag(&self, key: &str, item: &str) -> bool {
         self.inner.lock().unwrap().tags.get(key).map(|s| s.contains(item)).unwrap_or(false)
     }
